@@ -35,7 +35,7 @@ func (e *Engine) doCall(fr *frame, x *ssa.Call, st *State, k func(st *State, res
 	cm := x.Common()
 	if cm.IsInvoke() {
 		recv := e.get(fr, cm.Value).(Iface)
-		e.oblige(st, fr, "nil", "invoke:"+e.callText(x), e.C.Ne(recv.Typ, e.C.Const(32, 0)), x.Pos())
+		e.oblige(st, fr, "nil", "invoke:"+e.callText(x), e.C.Ne(recv.Typ, e.C.Const(TypW, 0)), x.Pos())
 		// statically known dynamic type: dispatch
 		if recv.Typ.IsConst() && recv.Typ.Val != 0 {
 			dt := e.typeByID[uint32(recv.Typ.Val)]
@@ -391,12 +391,16 @@ func (e *Engine) frameOblig(fr *frame, st *State, p Ptr, nbytes *Term, detail st
 	if isFreshRegion(p.R) {
 		return
 	}
-	alts := []*Term{c.Uge(p.R, c.Const(32, FreshBase))}
+	alts := []*Term{c.Uge(p.R, c.Const(RgnW, FreshBase))}
 	for _, m := range rc.modRanges {
 		if m.R == nil {
 			return
 		}
-		alts = append(alts, c.And(c.Eq(p.R, m.R), c.Ule(m.Lo, p.O), c.Ule(c.Add(p.O, nbytes), m.Hi), c.Ule(p.O, c.Add(p.O, nbytes))))
+		in := c.And(c.Eq(p.R, m.R), c.Ule(m.Lo, p.O), c.Ule(c.Add(p.O, nbytes), m.Hi), c.Ule(p.O, c.Add(p.O, nbytes)))
+		if m.Cond != nil {
+			in = c.And(m.Cond, in)
+		}
+		alts = append(alts, in)
 	}
 	// zero-length writes are fine
 	alts = append(alts, c.Eq(nbytes, c.Const(64, 0)))
@@ -407,6 +411,7 @@ type modRange struct {
 	R      *Term
 	Lo, Hi *Term
 	Text   string
+	Cond   *Term
 }
 
 // ---------------------------------------------------------------------------------------------
@@ -492,6 +497,37 @@ func paramInfo(fn *ssa.Function, args []Value) ([]Value, []types.Type, []string)
 }
 
 func (e *Engine) contractCall(fr *frame, x *ssa.Call, fn *ssa.Function, spec *FuncSpec, args []Value, st *State, k func(st *State, res Value)) {
+	// caller-side case splits requested by the contract
+	if len(spec.Splits) > 0 {
+		pre := st.heap
+		env := e.specEnvFor(fn, spec, args, nil, &pre, nil, false)
+		states := []*State{st}
+		for _, sp := range spec.Splits {
+			cond := env.boolTerm(env.eval(sp.Expr))
+			if cond.IsTrue() || cond.IsFalse() {
+				continue
+			}
+			var next []*State
+			for _, s := range states {
+				s2 := s.clone()
+				s.assume(cond)
+				s.path = append(s.path, "split("+sp.Text+")=T")
+				s2.assume(e.C.Not(cond))
+				s2.path = append(s2.path, "split("+sp.Text+")=F")
+				next = append(next, s, s2)
+				e.countPath()
+			}
+			states = next
+		}
+		for _, s := range states {
+			e.contractCall1(fr, x, fn, spec, args, s, k)
+		}
+		return
+	}
+	e.contractCall1(fr, x, fn, spec, args, st, k)
+}
+
+func (e *Engine) contractCall1(fr *frame, x *ssa.Call, fn *ssa.Function, spec *FuncSpec, args []Value, st *State, k func(st *State, res Value)) {
 	c := e.C
 	short := ShortKey(spec.Key)
 	pre := st.heap
@@ -516,6 +552,11 @@ func (e *Engine) contractCall(fr *frame, x *ssa.Call, fn *ssa.Function, spec *Fu
 			e.oblige(st, fr, "dec", "rec:"+short, c.And(c.Slt(newV, oldV), c.Sle(c.Const(64, 0), oldV)), x.Pos())
 		}
 	}
+	// regions the callee may have allocated: reserved before any post-state value is created, so that
+	// post-state values may refer to them (allocation epochs, see term.go)
+	poolBase := e.nextRgn
+	e.setRgn(poolBase + 8)
+	poolNext := poolBase
 	// havoc the modifies set
 	for _, m := range spec.Modifies {
 		e.havocItem(fr, st, env, m)
@@ -532,6 +573,13 @@ func (e *Engine) contractCall(fr *frame, x *ssa.Call, fn *ssa.Function, spec *Fu
 		results = append(results, v)
 	}
 	post := e.specEnvFor(fn, spec, args, results, &st.heap, &pre, true)
+	post.freshAlloc = func() *Term {
+		poolNext++
+		if poolNext > poolBase+8 {
+			specErr("more than 8 fresh() clauses in one contract")
+		}
+		return c.Const(RgnW, uint64(FreshBase+poolNext))
+	}
 	for _, en := range spec.Ensures {
 		t, facts := e.clauseAssume(post, en)
 		st.assume(t)
@@ -556,6 +604,16 @@ func clauseName(cl *Clause, i int) string {
 // havocItem forgets the contents of one modifies item (evaluated in the pre-state).
 func (e *Engine) havocItem(fr *frame, st *State, env *specEnv, m *Clause) {
 	c := e.C
+	var cond *Term
+	if m.Cond != nil {
+		cond = env.boolTerm(env.eval(m.Cond))
+		if cond.IsFalse() {
+			return
+		}
+		if cond.IsTrue() {
+			cond = nil
+		}
+	}
 	// whole-slice contents: bytes(b)  |  range: b[lo:hi]  |  cell: p.f, *p  |  "heap" (everything)
 	if id, ok := m.Expr.(*ast.Ident); ok && id.Name == "heap" {
 		c.havocAll(&st.heap)
@@ -573,7 +631,7 @@ func (e *Engine) havocItem(fr *frame, st *State, env *specEnv, m *Clause) {
 			}
 			et := v.T.Underlying().(*types.Slice).Elem()
 			hi := c.Add(s.P.O, c.Mul(s.Cap, c.Const(64, uint64(sizeof(et)))))
-			st.facts = append(st.facts, c.havocRange(&st.heap, s.P.R, s.P.O, hi, et)...)
+			st.facts = append(st.facts, c.havocRange(&st.heap, s.P.R, s.P.O, hi, et, cond)...)
 			if fr.dry != nil {
 				fr.dry.noteRegion(s.P.R, et)
 			}
@@ -594,7 +652,7 @@ func (e *Engine) havocItem(fr *frame, st *State, env *specEnv, m *Clause) {
 		s := v.V.(Slice)
 		et := v.T.Underlying().(*types.Slice).Elem()
 		hi := c.Add(s.P.O, c.Mul(s.Len, c.Const(64, uint64(sizeof(et)))))
-		st.facts = append(st.facts, c.havocRange(&st.heap, s.P.R, s.P.O, hi, et)...)
+		st.facts = append(st.facts, c.havocRange(&st.heap, s.P.R, s.P.O, hi, et, cond)...)
 		if fr.dry != nil {
 			fr.dry.noteRegion(s.P.R, et)
 		}
@@ -606,6 +664,9 @@ func (e *Engine) havocItem(fr *frame, st *State, env *specEnv, m *Clause) {
 	for _, a := range as {
 		st.assume(a)
 	}
+	if cond != nil {
+		nv = c.IteVal(cond, nv, c.Load(&st.heap, p, 0, t))
+	}
 	c.Store_(&st.heap, p, 0, t, nv)
 	if fr.dry != nil {
 		fr.dry.noteStore(c, p, t)
@@ -616,6 +677,14 @@ func (e *Engine) havocItem(fr *frame, st *State, env *specEnv, m *Clause) {
 func (e *Engine) modRangesOf(env *specEnv, spec *FuncSpec) []modRange {
 	c := e.C
 	var out []modRange
+	defer func() {
+		// attach conditions
+		for i, m := range spec.Modifies {
+			if m.Cond != nil && i < len(out) {
+				out[i].Cond = env.boolTerm(env.eval(m.Cond))
+			}
+		}
+	}()
 	for _, m := range spec.Modifies {
 		if id, ok := m.Expr.(*ast.Ident); ok && id.Name == "heap" {
 			out = append(out, modRange{R: nil, Text: "heap"})
